@@ -119,17 +119,18 @@ def r2(ctx):
         if not (mask_ok and board_ok):
             ctx.violation(R, ENUM_MOVES + ':args:' + ptype, 'legals for %s is called with board=%s mask=%s (required: the board, !own pieces)' % (
                 ptype, sh(c['argvals'][1], 60), sh(args[2], 100)), where(s.body, c['line']))
+        # the number of checkers for which this call is reached: every guard is evaluated for 0, 1, 2, 3 checkers
+        reach = set()
+        unknown_guard = False
         for conj in dnf(s, c['blk']):
-            nocheck = None
-            single = None
-            for gd in conj:
-                cn = bb(gd['cond'], an)
-                if cn[0] in ('bbeq', 'bbne') and set(cn[1:]) == {('bb0',), CK}:
-                    nocheck = gd['truth'] if cn[0] == 'bbeq' else (not gd['truth'])
-                elif cn == ('bin', 'Eq', ('popcnt', CK), ('int', 1, 'u32')):
-                    single = gd['truth']
-            cls = 'none' if nocheck else ('single' if (nocheck is False and single) else ('multi' if (nocheck is False and single is False) else 'unknown'))
-            rows.setdefault(cls, set()).add((ptype, ctype.rsplit('::', 1)[-1]))
+            for n_ in (0, 1, 2, 3):
+                hs = [count_guard_holds(gd, n_, CK, lambda x: bb(x, an)) for gd in conj if gd['cond'] is not None]
+                if any(h is None for h in hs):
+                    unknown_guard = True
+                elif all(hs):
+                    reach.add(n_)
+        cls = 'unknown' if unknown_guard else {frozenset({0}): 'none', frozenset({1}): 'single', frozenset({2, 3}): 'multi'}.get(frozenset(reach), 'unknown')
+        rows.setdefault(cls, set()).add((ptype, ctype.rsplit('::', 1)[-1]))
     if 'unknown' in rows:
         ctx.inconclusive(R, 'dispatcher branches not recognised for %s' % sorted(rows['unknown']))
         return
